@@ -56,3 +56,13 @@ Proof.
 Qed.
 End c06.
 Print Assumptions sample_complete_of_wo.
+
+(* C05 for the sampling oracles (random search, Hyperband's first rounds, the Bayesian warm-up): what _random_values hands out
+   holds a value for exactly the active entries *)
+Theorem random_values_exactly_active (samp : nat → Z → value) (draw : nat → hp → value) mc fuel sp tried seed col v seed' :
+  wo [] sp → random_values samp draw mc fuel sp tried seed col = (Some v, seed') →
+  ∀ h, h ∈ sp → (is_Some (v !! h_name h) ↔ conds_active v (h_conds h) = true).
+Proof.
+  intros Hwo Hrv. destruct (random_values_ensured _ _ _ _ _ _ _ _ _ _ Hrv) as (w & ->).
+  by apply ensure_covers'.
+Qed.
